@@ -1223,15 +1223,16 @@ where
         if safe.active_blob.is_none() {
             Err(Error::active_blob_doesnt_exist().into())
         } else {
+            // Sync while the blob is still in its place: if the sync fails or this future is dropped
+            // at the await point, the blob stays active (it must never be held only by a local variable)
+            if let Some(ablob) = safe.active_blob.as_ref() {
+                ablob.read().await.fsyncdata().await?;
+            }
+            let blobs = safe.blobs.clone();
+            let mut blobs = blobs.write().await;
             // always true
             if let Some(ablob) = safe.active_blob.take() {
-                let ablob = (*ablob).into_inner();
-                if let Err(e) = ablob.fsyncdata().await {
-                    // Blob should not be lost when sync fails: keep it as active
-                    safe.active_blob = Some(Box::new(ASRwLock::new(ablob)));
-                    return Err(e.into());
-                }
-                safe.blobs.write().await.push(ablob).await;
+                blobs.push((*ablob).into_inner()).await;
             }
             Ok(())
         }
